@@ -3,13 +3,13 @@ module verif
 go 1.26.8
 
 require (
+	github.com/fxamacker/cbor/v2 v2.9.2
 	github.com/miekg/dns v1.1.72
 	github.com/mycoria/mycoria v0.0.0
 	pgregory.net/rapid v1.3.0
 )
 
 require (
-	github.com/fxamacker/cbor/v2 v2.9.2 // indirect
 	github.com/google/btree v1.1.3 // indirect
 	github.com/klauspost/cpuid/v2 v2.4.0 // indirect
 	github.com/mdlayher/ndp v1.1.0 // indirect
